@@ -1,6 +1,7 @@
 (* C18 — unsafe transport code stays inside its buffers for every message shape. *)
 From Coq Require Import ZArith List Lia.
 From IPC Require Import U64 Params Frag ParamsFacts FragProofs FragMore.
+From IPC Require Shm ShmProofs.
 Import ListNotations.
 Open Scope Z_scope.
 
@@ -58,3 +59,30 @@ Print Assumptions C18_cmsg_recv.
 Example C18_ex : recv_ctl_cap = 272 /\ recv_channel_length 272 272 = 64 /\ CMSG_SPACE 260 = 280 /\
   recv 5 4096 {| fp_total := 9000; fp_lo := 0; fp_hi := 4056; fp_rights := 1; fp_ded := true |} [(4056, 8120)] = RClosedMidway [(0, 4056); (4056, 8120)].
 Proof. vm_compute. repeat split. Qed.
+
+(* ---- a mapping that fails (mmap returns MAP_FAILED): model Shm.v with an oracle for the one mmap an operation may issue ---- *)
+Module MmapFailure.
+Import Shm ShmProofs.
+Local Open Scope Z_scope.
+
+(* an operation on a region either panics (the assert in map_file) or behaves exactly as if nothing had failed: it never hands
+   out a region whose length or contents differ from what was created, cloned or sent - for EVERY oracle *)
+Theorem C18_mmap_failure_create : forall ok w bytes w' r cs,
+  create_f ok w bytes = Some (w', r, cs) -> (w', r, cs) = create w bytes /\ read w' r = bytes.
+Proof. exact mmap_failure_all_or_nothing. Qed.
+Print Assumptions C18_mmap_failure_create.
+Theorem C18_mmap_failure_clone : forall ok w r w' r' cs,
+  clone_f ok w r = Some (w', r', cs) -> read w' r' = read w r /\ r_len r' = r_len r.
+Proof. exact mmap_failure_clone. Qed.
+Print Assumptions C18_mmap_failure_clone.
+Theorem C18_mmap_failure_receive : forall ok w bytes w1 r c1 w2 r' c2,
+  from_bytes w bytes = (w1, r, c1) -> receive_f ok w1 r = Some (w2, r', c2) ->
+  read w2 r' = bytes /\ r_len r' = Z.of_nat (length bytes).
+Proof. exact mmap_failure_receive. Qed.
+Print Assumptions C18_mmap_failure_receive.
+(* zero-length regions map nothing and therefore cannot fail this way *)
+Theorem C18_mmap_failure_panics_iff : forall w bytes,
+  create_f false w bytes = None <-> mmapfail_panics (Z.of_nat (length bytes)) = true.
+Proof. exact mmap_failure_panics_iff. Qed.
+Print Assumptions C18_mmap_failure_panics_iff.
+End MmapFailure.
